@@ -9,6 +9,24 @@ from .. import gen, impl, sched, spantree
 from ..runprop import RunProp
 
 
+class QuotaCache:
+    """A cache backend that refuses entries once its budget is used up: `set` RAISES (a full disk, a value whose pickling fails, a remote
+    store that is down)."""
+
+    def __init__(self, budget: int) -> None:
+        self.budget = budget
+        self.data: dict[str, Any] = {}
+
+    def get(self, key: str) -> tuple[bool, Any]:
+        return (True, self.data[key]) if key in self.data else (False, None)
+
+    def set(self, key: str, value: Any) -> None:
+        if self.budget <= 0:
+            raise OSError("cache quota exceeded")
+        self.budget -= 1
+        self.data[key] = value
+
+
 class C12(RunProp):
     id = "C12"
     level = "proof"
@@ -32,9 +50,20 @@ class C12(RunProp):
                 if outs:
                     c.setdefault("cfg", {})
                     c["cfg"] = dict(c["cfg"], select=rng.sample(outs, rng.randint(1, len(outs))), onMissing="error")
+            bad_cache = rng.randint(0, 2) if rng.random() < 0.15 else None
             for runner in ("sync", "async"):
-                yield {"kind": "run", "program": c["program"], "values": c["values"], "cfg": c.get("cfg", {}), "runner": runner, "seed": rng.randint(0, 10**6),
-                       "yielding": (rng.choice([False, True, True, "syncmethods"]) if runner == "async" else False)}
+                case = {"kind": "run", "program": c["program"], "values": c["values"], "cfg": c.get("cfg", {}), "runner": runner, "seed": rng.randint(0, 10**6),
+                        "yielding": (rng.choice([False, True, True, "syncmethods"]) if runner == "async" else False)}
+                if bad_cache is not None:
+                    # every function node cacheable, on a backend whose `set` raises after `bad_cache` entries: the run fails in the middle of
+                    # a node's bookkeeping — the span of that node must still be closed exactly once
+                    prog = copy.deepcopy(c["program"])
+                    for g in prog:
+                        for n in g["nodes"]:
+                            if n["kind"] == "fn":
+                                n["cache"] = True
+                    case.update(program=prog, badCache=bad_cache)
+                yield case
             if rng.random() < 0.25:
                 m = gen.gen_map_node(rng)
                 inner = [m["program"][0]]
@@ -65,7 +94,7 @@ class C12(RunProp):
             o["status"] = "build-error" if o.get("status") == "build-error" else ("failed" if o["raised"] is not None else "completed")
             return o
         return impl.run_case(case["program"], None, case["values"], case["cfg"], case["runner"], record_events=True, ctl=ctl,
-                             yielding_recorder=case.get("yielding"))
+                             yielding_recorder=case.get("yielding"), cache=QuotaCache(case["badCache"]) if case.get("badCache") is not None else None)
 
     def request(self, case: dict) -> dict:
         if case["kind"] == "map":
@@ -81,6 +110,8 @@ class C12(RunProp):
         return impl.model_obs(r)
 
     def compare(self, case: dict, i: Any, m: Any) -> str | None:
+        if case.get("badCache") is not None:
+            return None          # a failing cache backend is outside the run model: the span-tree oracle judges these cases
         if i["status"] != m["status"]:
             return f"status: impl={i['status']} model={m['status']}"
         if case["runner"] == "sync":
